@@ -50,7 +50,42 @@ fn with_layouts(a: &[i32], mut f: impl FnMut(&str, ArrayViewMut1<i32>)) -> bool 
     ok
 }
 
+/// seeded random arrays of length 8..=48 with heavy ties (thresholds in "optimised" code paths show up only there)
+fn large_arrays(cfg: &Cfg, count: usize, salt: u64, mut f: impl FnMut(&[i32])) {
+    let mut rng = Lcg(cfg.seed.wrapping_mul(1315423911).wrapping_add(salt));
+    for k in 0..count {
+        let n = 8 + rng.below(41);
+        let spread = [2usize, 3, 5, n, 4 * n][k % 5];
+        let mut a: Vec<i32> = (0..n).map(|_| rng.below(spread) as i32).collect();
+        match k % 7 { 0 => a.sort(), 1 => { a.sort(); a.reverse(); } 2 => { let m = a[0]; for x in a.iter_mut().skip(n / 2) { *x = m; } } _ => {} }
+        f(&a);
+    }
+}
+
 pub fn partition(cfg: &mut Cfg, rep: &mut Report) {
+    let nlarge = if cfg.thorough { 3000 } else { 400 };
+    large_arrays(cfg, nlarge, 1, |a| {
+        let n = a.len();
+        for p in [0, 1, n / 2, n - 2, n - 1] {
+            let case = format!("large;arr={:?};pivot={}", a, p);
+            if !rep.want(cfg, &case) { continue; }
+            with_layouts_rec(&recs(a), |lay, mut v| {
+                let pk = v[p].key;
+                match guarded(|| v.partition_mut(p)) {
+                    Err(m) => rep.fail_p(cfg, &case, "C15,C16", "partition_mut panicked for an in-range pivot position", json!({"layout": lay, "panic": m})),
+                    Ok(k) => {
+                        let after: Vec<Rec> = v.iter().cloned().collect();
+                        let rank = a.iter().filter(|x| **x < pk).count();
+                        if ident(&after) != ident(&recs(a)) { rep.fail_p(cfg, &case, "C03,C15", "partition_mut changed the multiset of the array", json!({"layout": lay})); }
+                        if !(k == rank && after[k].key == pk && after[..k].iter().all(|x| x.key < pk) && after[k + 1..].iter().all(|x| x.key >= pk)) {
+                            rep.fail_p(cfg, &case, "C15", "partition_mut postcondition", json!({"layout": lay, "returned": k, "rank": rank}));
+                        }
+                    }
+                }
+            });
+            rep.eval(&case, true);
+        }
+    });
     let maxn = if cfg.thorough { 7 } else { 5 };
     rep.bound = format!("all arrays over 0..n of length 1..={} (n^n each), every pivot position, layouts contiguous / step 2 in a guarded parent / reversed", maxn);
     for n in 1..=maxn {
@@ -96,6 +131,34 @@ pub fn partition(cfg: &mut Cfg, rep: &mut Report) {
 }
 
 pub fn select(cfg: &mut Cfg, rep: &mut Report) {
+    let nlarge = if cfg.thorough { 2000 } else { 300 };
+    let mut prng = Lcg(cfg.seed + 77);
+    large_arrays(cfg, nlarge, 2, |a| {
+        let n = a.len();
+        let s = sorted(a);
+        for i in [0, 1, n / 3, n / 2, n - 1] {
+            let case = format!("large;arr={:?};i={}", a, i);
+            if !rep.want(cfg, &case) { continue; }
+            for _ in 0..3 {
+                let script: Vec<usize> = (0..64).map(|_| prng.below(1000)).collect();
+                with_layouts_rec(&recs(a), |lay, mut v| {
+                    ndarray_stats::verif_hooks::set_pivot_script(Some(script.clone()));
+                    match guarded(|| v.get_from_sorted_mut(i)) {
+                        Err(m) => rep.fail_p(cfg, &case, "C02,C16", "get_from_sorted_mut panicked for an in-range index", json!({"layout": lay, "panic": m})),
+                        Ok(x) => {
+                            let after: Vec<Rec> = v.iter().cloned().collect();
+                            if ident(&after) != ident(&recs(a)) { rep.fail_p(cfg, &case, "C02,C03", "selection changed the multiset of the lane", json!({"layout": lay})); }
+                            if !(x.key == s[i] && after[i].key == x.key && after[..i].iter().all(|y| y.key <= x.key) && after[i..].iter().all(|y| y.key >= x.key)) {
+                                rep.fail_p(cfg, &case, "C02", "selection postcondition (value / partition around position i)", json!({"layout": lay, "returned": x.key, "expected": s[i]}));
+                            }
+                        }
+                    }
+                });
+                ndarray_stats::verif_hooks::set_pivot_script(None);
+            }
+            rep.eval(&case, true);
+        }
+    });
     let maxn = if cfg.thorough { 6 } else { 4 };
     rep.bound = format!("all weak-order patterns of length 1..={}, every index, every pivot script (DFS over the hooked RNG), 3 layouts", maxn);
     for n in 1..=maxn {
@@ -152,6 +215,29 @@ pub fn select(cfg: &mut Cfg, rep: &mut Report) {
 }
 
 pub fn select_many(cfg: &mut Cfg, rep: &mut Report) {
+    let nlarge = if cfg.thorough { 1500 } else { 250 };
+    let mut prng = Lcg(cfg.seed + 78);
+    large_arrays(cfg, nlarge, 3, |a| {
+        let n = a.len();
+        let s = sorted(a);
+        let k = 1 + prng.below(9);
+        let ix: Vec<usize> = (0..k).map(|_| prng.below(n)).collect();
+        let case = format!("large;arr={:?};idx={:?}", a, ix);
+        if !rep.want(cfg, &case) { return; }
+        let mut want = ix.clone(); want.sort(); want.dedup();
+        ndarray_stats::verif_hooks::set_pivot_script(Some((0..128).map(|_| prng.below(1000)).collect()));
+        let mut v = Array1::from(a.to_vec());
+        match guarded(|| v.get_many_from_sorted_mut(&Array1::from(ix.clone()))) {
+            Err(m) => rep.fail_p(cfg, &case, "C02,C16,C18", "get_many_from_sorted_mut panicked for in-range indexes", json!({"panic": m})),
+            Ok(map) => {
+                let keys: Vec<usize> = map.keys().copied().collect();
+                if sorted(&v.to_vec()) != s { rep.fail_p(cfg, &case, "C02,C03", "bulk selection changed the multiset of the array", json!({})); }
+                if keys != want || !map.iter().all(|(k, x)| *x == s[*k]) { rep.fail_p(cfg, &case, "C02,C18", "bulk selection postcondition", json!({"keys": keys})); }
+            }
+        }
+        ndarray_stats::verif_hooks::set_pivot_script(None);
+        rep.eval(&case, true);
+    });
     let maxn = if cfg.thorough { 5 } else { 4 };
     rep.bound = format!("all weak-order patterns of length 1..={}, every index list of length 0..=3 over 0..n (order and repeats kept), every pivot script", maxn);
     for n in 1..=maxn {
